@@ -2,8 +2,10 @@
 LEVEL = {"C15": "fault_enumeration"}
 
 ENGINES = [
-    {"name": "E4-schedx", "path": "e4 (+ sched, vsync, vgotomic)", "serves_properties": ["C20", "C04", "C06"],
+    {"name": "E4-schedx", "path": "e4 (+ sched, vsync, vgotomic)", "serves_properties": ["C20", "C04", "C06", "C08", "C09", "C15"],
      "kind_free_text": "cooperative scheduler + DFS over choice sequences with iterative preemption bounding on the real code rebuilt with a go build -overlay that rewrites \"sync\" to verif/vsync and gotomic to verif/vgotomic; separate free-running -race pass"},
+    {"name": "E5-inpackage", "path": "e5", "serves_properties": ["C16"],
+     "kind_free_text": "exhaustive enumeration inside a package of the repository that cannot be imported (cmd/wasp, package main): the harness test file is compiled into that package through a go test -overlay, /repo itself is not touched"},
     {"name": "E3-crashx", "path": "e3", "serves_properties": ["C15"],
      "kind_free_text": "crash-point enumeration with real child processes killed by SIGKILL at verif-tag hook points in wasp/messages/store.go, restarted on the same directory"},
     {"name": "E2-brokermc", "path": "e2", "serves_properties": ["C01", "C02", "C03", "C05", "C07", "C11", "C12", "C13", "C14", "C16", "C17", "C18"],
@@ -31,6 +33,7 @@ PHASES = {
     "C18": [
         {"pkg": "e2", "test": "TestC18HostileInput", "phase": "C18/hostile-streams"},
         {"pkg": "e2", "test": "TestC18SplitPackets", "phase": "C18/split-packets"},
+        {"pkg": "e2", "test": "TestC18WorkerStarvation", "phase": "C18/publish-worker-starvation"},
     ],
     "C17": [
         {"pkg": "e2", "test": "TestC17MountPoints", "phase": "C17/mount-point-isolation"},
@@ -57,6 +60,7 @@ PHASES = {
     "C03": [
         {"pkg": "e2", "test": "TestC03Retransmission", "phase": "C03/retransmission"},
         {"pkg": "e2", "test": "TestC03TimerPhase", "phase": "C03/timer-phase"},
+        {"pkg": "e2", "test": "TestC03SessionDigits", "phase": "C03/session-id-digits"},
     ],
     "C02": [
         {"pkg": "e2", "test": "TestC02Delivery", "phase": "C02/acknowledged-publish-delivered"},
@@ -75,6 +79,10 @@ PHASES = {
     ],
     "C08": [
         {"pkg": "e1", "test": "TestC08Convergence", "phase": "C08/convergence"},
+        # a local change racing with the merge of a newer remote copy of the same entry: the node must end where a
+        # replica that received the same updates ends (every interleaving, preemption bounded)
+        {"pkg": "e4", "test": "TestC20Schedules", "phase": "C08/schedules",
+         "env": {"VERIF_E4_PROPERTY": "C08", "VERIF_E4_FILTER": "distributed: sessions.Delete(s1),distributed: topics.Set"}},
     ],
     "C10": [
         {"pkg": "e1", "test": "TestC10FullState", "phase": "C10/full-state-exchange"},
@@ -88,6 +96,8 @@ PHASES = {
     "C16": [
         {"pkg": "e1", "test": "TestC16Store", "phase": "C16/credential-stores"},
         {"pkg": "e2", "test": "TestC16Wire", "phase": "C16/wire"},
+        # the broker's own configuration code (package main) builds the handler: configured values must reach it verbatim
+        {"pkg": "e5", "test": "TestC16Config", "phase": "C16/configured-provider"},
     ],
     "C04": [
         {"pkg": "e1", "test": "TestC04Queue", "phase": "C04/queue-sequences"},
@@ -101,6 +111,7 @@ PHASES = {
          "env": {"VERIF_E4_PROPERTY": "C06", "VERIF_E4_FILTER": "idpool"}},
         # the writer-side clause (identifiers of outbound messages released on every path): same scripts as C03
         {"pkg": "e2", "test": "TestC03Retransmission", "phase": "C03/retransmission"},
+        {"pkg": "e2", "test": "TestC03TimerPhase", "phase": "C03/timer-phase"},
     ],
     "C19": [
         {"pkg": "e1", "test": "TestC19Topics", "phase": "C19/topics-store"},
